@@ -6,21 +6,21 @@ T = {
     "C01": ("explicit-state", "exhaustive write/end-chunk histories x configurations x read schedules on the real writer and reader, reference decoder as oracle",
             "Every write history over a tiny alphabet up to a stated depth, every configuration of the tiny universe, medium contents under every listed segmentation, and the zck/unzck tools in-process, each checked against an independent spec-derived decoder; termination by per-execution alarm.",
             "Contents outside the block/medium alphabets, histories deeper than the bound and zstd's own behaviour on other data are not covered; the reference decoder (mc/zckref.py, hashlib, libzstd via ctypes) is trusted."),
-    "C02": ("explicit-state", "exhaustive raw and re-sealed structural mutation of small valid files, every truncation, read schedules; implication checked on every mutant",
+    "C02": ("explicit-state", "exhaustive raw and re-sealed structural mutation of small valid files (incl. every mix of the two identifiers), every truncation, read schedules; implication checked on every mutant",
             "All single-bit flips, all 255 substitutions of body bytes, every truncation/extension/indel and every listed re-sealed structural mutant of each base file are read through the real reader; success implies the content equals the base content or the reference decoding of the mutant.",
             "Base files are those of the tiny universe plus one medium file; at most two simultaneous structural deviations; the reference decoder is trusted."),
-    "C03": ("deviation-bounded", "deviation-bounded structure-aware enumeration of correctly sealed headers x API call sequences under ASan/UBSan with alarms",
+    "C03": ("deviation-bounded", "deviation-bounded structure-aware enumeration of correctly sealed headers (1-2 deviating fields), checksum-correct payload mutants, truncations and short files x API call sequences (all singles, all ordered pairs on files that open) and tools under ASan/UBSan with alarms",
             "Every sealed header with one (quick) or two (thorough) boundary-valued fields, every truncation, all byte strings of length <= 2, each driven through every public call sequence of depth <= 2 and every tool in a forked child under ASan+UBSan with a hang alarm.",
             "Only the listed boundary values and at most two deviating fields; sanitizer-visible undefined behaviour only; OOM paths excluded."),
-    "C04": ("explicit-state", "exhaustive enumeration of (old file, new file, range limit, initial target) over the word universe driving the documented update loop against a reference range server",
+    "C04": ("explicit-state", "exhaustive enumeration of (old file incl. damaged ones, new file, range limit, initial target) over the word universe driving the documented update loop against a reference range server; thorough: the real zckdl main against a loopback HTTP range server",
             "All pairs of words up to length 3 (plus no source), compression/dictionary variants, range limits and initial target states run the documented procedure over the public API with a reference server; final bytes and the exact multiset of requested ranges are compared with set arithmetic on the reference chunk table.",
-            "Words over four blocks; the in-process reference server (mc side) is trusted; the real zckdl binary is exercised over loopback only in the thorough tier."),
+            "Words over a small block alphabet; the in-process reference server (drv/scen_update.c) and the loopback server (mc/httpd.py) are trusted; the real zckdl main is exercised only in the thorough tier."),
     "C05": ("schedule-bounded", "exhaustive enumeration of all 1-cut and 2-cut partitions of well-formed range responses into callback invocations, all missing-chunk subsets, boundary/header spellings, per-chunk corruptions",
             "Every partition with <= 2 cuts (plus all-1-byte and k-byte pieces) of every response format for every non-empty set of missing chunks is fed to the real callbacks; final file bytes, per-chunk flags and return values must equal the reference reassembler's, and nothing outside the requested extents may change.",
             "Responses of 300-600 bytes, parts in request order, at most two cuts exhaustively."),
-    "C06": ("explicit-state", "exhaustive single-byte substitution (all 255 values at every header position), indels with adjusted size field, wrong-recipe digests; open verdict on the real reader",
+    "C06": ("explicit-state", "exhaustive single-byte substitution (all 255 values at every header position), indels with adjusted size field, wrong-recipe digests, and every substitute again under every single allocation failure of the open (allocator seam); open verdict on the real reader",
             "For every base file every header position takes every other byte value; every mutant must fail to open in both open paths, and every unmutated reference- or library-written file must open.",
-            "Single-byte edits (plus indels and wrong-recipe digests) of the listed base files; hash collisions are not considered."),
+            "Single-byte edits (plus indels and wrong-recipe digests) of the listed base files; hash collisions are not considered; under an allocation failure only 'does not open' is demanded."),
     "C07": ("explicit-state", "exhaustive enumeration of pinned (type, digest string, length) combinations, every byte value at every digest-string position, setter orders, lead validation repetitions, against a three-line reference model",
             "Every byte value at every position of the digest string, all listed lengths/types/orders and validate-lead repetitions are executed on the real option setters and lead reader and compared with the acceptance model; single-byte header substitutions are re-run under full pinning.",
             "Model covers orders the API accepts; a refused ordering makes no claim."),
@@ -45,7 +45,7 @@ T = {
     "C14": ("explicit-state", "exhaustive enumeration of all chunk-request sequences up to length 3 (4 thorough) over every chunk incl. dictionary and last, state = history replayed on a fresh context",
             "Every sequence of data/stored requests up to the depth on every listed file, each request compared with the slice of the original content / stored bytes and with the same request on a fresh context.",
             "Files of 3-4 chunks; sequences up to length 4."),
-    "C15": ("explicit-state", "exhaustive single-bit flips (all substitutions thorough) of every body byte x every read buffer size 1..chunk+2, attribution of returned bytes to chunks via the reference index",
+    "C15": ("explicit-state", "exhaustive single-bit flips (all substitutions thorough) of every body byte x every read buffer size 1..chunk+2, and every call history (find-matching, validate, find-valid, chunk requests, pairs) before the read on every still-decompressing mutant; attribution of returned bytes to chunks via the reference index",
             "Every corruption in the stated space that still decompresses is among the mutants; every read size is tried; no successful read may return a byte of a chunk whose stored bytes mismatch its digest.",
             "zstd files of three data chunks from the block alphabet."),
     "C16": ("explicit-state", "exhaustive 1-cut and boundary-neighbourhood 2-cut write segmentations, edits at every boundary neighbourhood; byte-identity and chunk-locality oracle",
@@ -57,7 +57,7 @@ T = {
     "C18": ("explicit-state", "exhaustive message lengths 0..300 x every split point (all split pairs at padding edges) x content families on both hash backends, three-way comparison with CPython's built-in SHA",
             "Both builds are compiled from the tree; every length, split and family is hashed by each and compared with an independent implementation; files written by each build are compared byte for byte and cross-read.",
             "Lengths up to 300 plus one 2^29-byte message."),
-    "C19": ("schedule-bounded", "stateless exploration of all thread schedules with <=2 preemptions (3 thorough) at system-call granularity under a cooperative scheduler, plus a free-running ThreadSanitizer pass of the same bodies",
+    "C19": ("schedule-bounded", "stateless exploration of all thread schedules with <=2 preemptions (thorough: 4 for pairs, 2 for triples) at system-call granularity under a cooperative scheduler, one fresh process per schedule, plus a free-running ThreadSanitizer pass of the same bodies",
             "All schedules within the preemption bound of every ordered pair of scenarios are executed on the real code with the scheduler deciding at every wrapped system call; each thread's results must equal its serial baseline; a separate TSan build reports unsynchronised accesses.",
             "Interleavings only at system-call granularity in pass 1; finer races rely on TSan's happens-before analysis."),
     "C20": ("explicit-state", "exhaustive enumeration of every value below 2^21 (round trip) and every byte string of length <=3 plus long strings with the last three positions enumerated, flush against a guard page, against exact integer arithmetic",
